@@ -121,6 +121,25 @@ pub fn run(run: &RunInfo) -> Summary {
             }
         }
     });
+    // dispatch behind the real transport when a single read of the connection fails: whatever the
+    // reader does about the error, a reply it hands out must be one the terminal sent (its control
+    // field, its content) - payload bytes of a packet must never be dispatched as a control field
+    if !skip_for_replay(run, "c15/transient/") {
+        let streams: Vec<(&str, Vec<Vec<u8>>)> = vec![
+            ("printline+printline-carrying-a-completion", vec![vec![0x06, 0xd1, 0x08, 0x00, b'a', b'b', b'c', b'd', b'e', b'f', b'g'], vec![0x06, 0xd1, 0x04, 0x00, 0x06, 0x0f, 0x00]]),
+            ("printline-carrying-an-abort+completion", vec![vec![0x06, 0xd1, 0x05, 0x01, 0x06, 0x1e, 0x01, 0x6c], vec![0x06, 0x0f, 0x00]]),
+            ("intermediate+abort", vec![vec![0x04, 0xff, 0x01, 0x06], vec![0x06, 0x1e, 0x01, 0x0f]]),
+        ];
+        let part = par_for(streams.len(), |ix, acc| {
+            let before = acc.get("executions");
+            crate::c04::check_transient("c15", streams[ix].0, &streams[ix].1, 1, acc);
+            let n = acc.get("executions") - before;
+            acc.count("cases", n);
+            acc.count("calls", n);
+            acc.count("transient_cases", n);
+        });
+        acc.merge(part);
+    }
     // inputs shorter than two bytes
     for en in &ens {
         let mut shorts: Vec<Vec<u8>> = vec![vec![]];
@@ -306,7 +325,7 @@ pub fn run(run: &RunInfo) -> Summary {
         transitions: acc.get("calls"),
         traces_validated: acc.get("variant_agreed") + acc.get("variant_error_agreed"),
         distinct_nontrivial: acc.get("variant_agreed") + acc.get("variant_error_agreed"),
-        rule: format!("17 reply enums x all 65,536 (class, instr) pairs x {} bodies (empty, baseline / all-present / 253..258-byte and >1000-byte bodies of every shipped command); all 256 one-byte bodies for the listed control fields and their one-byte neighbours; all inputs of length 0 and 1; through PacketTransport::read_packet: for every variant of every enum every body of its packet type followed by a second packet (inside / outside the reply set), every placement of one short read or pending poll (1 byte, half, all but one, pending); all 65,536 control fields x 2 bodies in the place of a command's acknowledgement through write_packet_with_ack; every control field outside the reply set (two bodies) as the first reply of each of the 17 sequences and of the firmware upload: one error, no acknowledgement. distinct_nontrivial = cases with a listed control field in which the parser agreed with the packet type's own decoder", bods.len()),
+        rule: format!("(besides the parser sweep below: three two-packet streams whose payloads contain control fields of other replies, read through the real transport with one read failing with Interrupted / WouldBlock / TimedOut / Other after every byte count and one further read deviation - every reply handed out must be the packet at that position) 17 reply enums x all 65,536 (class, instr) pairs x {} bodies (empty, baseline / all-present / 253..258-byte and >1000-byte bodies of every shipped command); all 256 one-byte bodies for the listed control fields and their one-byte neighbours; all inputs of length 0 and 1; through PacketTransport::read_packet: for every variant of every enum every body of its packet type followed by a second packet (inside / outside the reply set), every placement of one short read or pending poll (1 byte, half, all but one, pending); all 65,536 control fields x 2 bodies in the place of a command's acknowledgement through write_packet_with_ack; every control field outside the reply set (two bodies) as the first reply of each of the 17 sequences and of the firmware upload: one error, no acknowledgement. distinct_nontrivial = cases with a listed control field in which the parser agreed with the packet type's own decoder", bods.len()),
         exhaustive: true,
         required_witnesses: vec!["every variant of every reply enum was returned for its own control field".into(), "foreign control fields rejected".into(), "replies read through the transport with split reads and extended lengths were dispatched by their own control field".into(), "acknowledgements of commands were accepted and foreign packets in their place rejected".into(), "control fields outside the reply set were refused by the sequences themselves".into()],
         assumptions: vec!["reply table = DESIGN.md Appendix B (hand written)".into(), "bodies from a finite alphabet".into()],
